@@ -16,6 +16,22 @@ import (
 //   - worker.run: saveState comes after Journals.Write in the loop; the wait timeout (seconds)
 //   - startWorker's condition mentions wCharged and Pos.Less(LastKnwnPos); onWriteEvent sets Pos only for a new descriptor
 //   - names of the persisted files
+//
+// c10Idents: the identifiers of an expression, each followed by a blank
+func c10Idents(n ast.Node) string {
+	var sb strings.Builder
+	if n == nil {
+		return ""
+	}
+	ast.Inspect(n, func(m ast.Node) bool {
+		if id, ok := m.(*ast.Ident); ok {
+			sb.WriteString(id.Name + " ")
+		}
+		return true
+	})
+	return sb.String()
+}
+
 func c10CallsMethod(body ast.Node, sel string) (found bool, pos token.Pos) {
 	if body == nil {
 		return
@@ -373,6 +389,116 @@ func init() {
 		l.p("def onWriteEventRecordsBeforeStart : Bool := %s", leanBool(recordFirst))
 		l.p("/-- … and in both functions the assignment and the call happen inside one critical section of the pipe's lock -/")
 		l.p("def signOffAndNotificationUnderOneLock : Bool := %s", leanBool(underLock))
+		// --- the repairs of F79 and F10, recognised by structure (false on a tree without them)
+		// (a) Service.Init ranges over the loaded pipes and calls a ppipe method which, over the pipe's descriptors, assigns the
+		//     field startWorker compares Pos with (LastKnwnPos) and calls startWorker
+		catchUp := false
+		if fd := funcDecl(sf, "Service", "Init"); fd != nil {
+			ast.Inspect(fd.Body, func(n ast.Node) bool {
+				rs, ok := n.(*ast.RangeStmt)
+				if !ok || !strings.Contains(c10Idents(rs.X), "ppipes") {
+					return true
+				}
+				ast.Inspect(rs.Body, func(m ast.Node) bool {
+					ce, ok := m.(*ast.CallExpr)
+					if !ok {
+						return true
+					}
+					se, ok := ce.Fun.(*ast.SelectorExpr)
+					if !ok {
+						return true
+					}
+					if md := funcDecl(ppf, "ppipe", se.Sel.Name); md != nil {
+						ast.Inspect(md.Body, func(k ast.Node) bool {
+							if r2, ok := k.(*ast.RangeStmt); ok && strings.Contains(c10Idents(r2.X), "partitions") {
+								calls, _ := c10CallsMethod(r2.Body, "startWorker")
+								if calls && lastKnownField != "" && assignPos(r2.Body, lastKnownField, false) != 0 {
+									catchUp = true
+								}
+							}
+							return true
+						})
+					}
+					return true
+				})
+				return true
+			})
+		}
+		l.p("/-- repair of F79 (a): `Service.Init` lets every loaded pipe look at the sources it has a position for — `LastKnwnPos` is brought up to the end of the stored data and `startWorker` is called -/")
+		l.p("def initCatchesUpLoadedPipes : Bool := %s", leanBool(catchUp))
+		// (b) onWriteEvent: the block that registers a NEW descriptor (assigns into the partitions map) also calls savePipeInfo
+		persistFirst := false
+		if weFd != nil {
+			ast.Inspect(weFd.Body, func(n ast.Node) bool {
+				is, ok := n.(*ast.IfStmt)
+				if !ok {
+					return true
+				}
+				registers := false
+				ast.Inspect(is.Body, func(m ast.Node) bool {
+					if as, ok := m.(*ast.AssignStmt); ok && len(as.Lhs) == 1 {
+						if ix, ok := as.Lhs[0].(*ast.IndexExpr); ok && strings.Contains(c10Idents(ix.X), "partitions") {
+							registers = true
+						}
+					}
+					return true
+				})
+				if saves, _ := c10CallsMethod(is.Body, "savePipeInfo"); registers && saves {
+					persistFirst = true
+				}
+				return true
+			})
+		}
+		l.p("/-- repair of F79 (b): `onWriteEvent` persists the descriptor of a source it sees for the first time at once -/")
+		l.p("def firstNotificationPersistsDescriptor : Bool := %s", leanBool(persistFirst))
+		// (c) partition.Service.Write: a mutex obtained per partition (a map lookup keyed by the journal id the function got from
+		//     GetOrCreateJournal) is locked before the journal loop and released (deferred, or after the publication) after it
+		writeLock := false
+		if fd := funcDecl(pf, "Service", "Write"); fd != nil {
+			var loop *ast.ForStmt
+			var lockPos, unlockPos, pubPos token.Pos
+			keyed := false
+			ast.Inspect(fd.Body, func(n ast.Node) bool {
+				switch x := n.(type) {
+				case *ast.ForStmt:
+					if loop == nil {
+						loop = x
+					}
+				case *ast.DeferStmt:
+					if se, ok := x.Call.Fun.(*ast.SelectorExpr); ok && se.Sel.Name == "Unlock" {
+						unlockPos = fd.Body.End()
+					}
+					return false
+				case *ast.CallExpr:
+					if se, ok := x.Fun.(*ast.SelectorExpr); ok {
+						switch se.Sel.Name {
+						case "Lock":
+							if lockPos == 0 {
+								lockPos = x.Pos()
+							}
+						case "Unlock":
+							if x.Pos() > unlockPos {
+								unlockPos = x.Pos()
+							}
+						case "onWriteEvent":
+							pubPos = x.Pos()
+						case "LoadOrStore", "Load":
+							if len(x.Args) > 0 && c10Idents(x.Args[0]) == "src " {
+								keyed = true
+							}
+						}
+					}
+				case *ast.IndexExpr:
+					if c10Idents(x.Index) == "src " {
+						keyed = true
+					}
+				}
+				return true
+			})
+			writeLock = loop != nil && keyed && lockPos != 0 && lockPos < loop.Pos() && pubPos != 0 && pubPos < unlockPos
+		}
+		l.p("/-- repair of F10: `partition.Service.Write` holds a per-partition mutex from before the journal loop until after the publication of the write event -/")
+		l.p("def writePublishesUnderPartitionLock : Bool := %s", leanBool(writeLock))
 		l.p("/-- `startWorker` tests `closedCtx.Err() == nil && !pd.wCharged && pd.Pos.Less(pd.LastKnwnPos)` -/")
 		l.p("def startWorkerCondition : Bool := %s", leanBool(condOK))
 		l.p("/-- … and also that the pipe itself is alive (`pp.clsCtx` / `pp.deleted`) -/")
@@ -385,6 +511,16 @@ func init() {
 		}
 		l.p("/-- `saveState` writes the positions file -/")
 		l.p("def saveStatePersists : Bool := %s", leanBool(saveStatePersists))
+		// … inside the critical section of the pipe's lock: the whole map is written while nobody can change it, so the file
+		// written last is the newest snapshot (the model's `wsave` is one atomic step)
+		saveUnderLock := false
+		if fd := funcDecl(ppf, "ppipe", "saveState"); fd != nil {
+			_, ps := c10CallsMethod(fd.Body, "savePipeInfo")
+			lo, hi := lockSpan(fd)
+			saveUnderLock = saveStatePersists && lo != 0 && lo < ps && ps < hi
+		}
+		l.p("/-- … while it holds the pipe's lock (between `Lock()` and the last `Unlock()`): snapshots reach the file in the order they are taken -/")
+		l.p("def saveStateWritesFileUnderLock : Bool := %s", leanBool(saveUnderLock))
 
 		// --- worker.go
 		wf := parseFile("pkg/pipe/worker.go")
